@@ -841,6 +841,19 @@ class ExtensionsProperty(DictionaryProperty):
                     _validate_id(
                         key, self.spec_version, 'extension-definition--',
                     )
+                    # Whatever the extension defines, its entry is a non-empty
+                    # JSON object without nulls; if it names an extension
+                    # type, that must be one of the known ones.
+                    if not isinstance(subvalue, dict) or not subvalue \
+                            or any(v is None for v in subvalue.values()) \
+                            or subvalue.get("extension_type", "new-sdo") not in (
+                                "new-sdo", "new-sco", "new-sro",
+                                "property-extension",
+                                "toplevel-property-extension",
+                            ):
+                        raise ValueError(
+                            "extension '{}' must be a non-empty object without nulls and with a valid 'extension_type'".format(key),
+                        )
                 elif allow_custom:
                     has_custom = True
                 else:
